@@ -143,7 +143,7 @@ impl Prop for Gap {
         "gap"
     }
     fn cases(&self, tier: Tier) -> u64 {
-        tier.pick(1_000_000, 15_000_000)
+        tier.pick(1_000_000, 5_000_000)
     }
     fn strategy(&self, tier: Tier) -> BoxedStrategy<Case> {
         let mut shape = HistoryShape::default_for(tier);
